@@ -33,6 +33,9 @@ VarsAgree(st, e) ==
 \* the pending requests of the game and the game's variable store
 FinOK(st, e) ==
   /\ {m \in ObsMoves(st) : m.lab.ev # "cease"} = {}
+  \* with nothing left for the environment to do, a merely allowed move must
+  \* have happened as well
+  /\ ReqToks(st) = {} => MayMoves(st) = {}
   /\ e.n = Cardinality(ReqToks(st))
   /\ VarsAgree(st, e)
   /\ IF st.ceased THEN e.ok ELSE (~e.ok /\ ~Complete(st))
@@ -46,7 +49,7 @@ WaitOK(st, e) ==
 \* by an implementation: the property leaves it open
 DropErr(st) == [st EXCEPT !.tok = [t \in {u \in DOMAIN @ : u.st \notin {"err", "dead"}} |-> @[t]]]
 
-StepSet(st, e) ==
+StepSet0(st, e) ==
   CASE e.ev = "started" -> IF e.ok THEN {st} ELSE {}
     [] e.ev = "req"     -> Matching(st, Lab("req", e.node, e.occ))
     [] e.ev = "end"     -> Matching(st, Lab("end", e.node, 0))
@@ -58,6 +61,8 @@ StepSet(st, e) ==
     [] e.ev = "fin"     -> IF FinOK(st, e) THEN {st} ELSE {}
     [] e.ev = "timeout" -> {st}
     [] OTHER -> {}
+
+StepSet(st, e) == UNION {StepSet0(x, e) : x \in Expand(st)}
 
 TraceInit == l = 1 /\ ok = FALSE /\ s = InitState(1)
 
